@@ -307,7 +307,7 @@ func runC14(args []string) error {
 		"diff: one case per (generated program, entry function) with its argument tuples, non-trivial when at least one tuple returns a value; "+
 			"frag: one case per MiniGo program with all its runs, non-trivial when the program has a loop, a call or a short-circuit operator and some run returns a value; "+
 			"distinct by Coq term")
-	co.shard = 24
+	co.shard = 12
 	work := filepath.Join(cf.out, "ws")
 	if *probe != "" {
 		return c14Probe(co, work, *probe)
